@@ -159,11 +159,11 @@ Proof.
     repeat match type of H with
     | (if ?c then _ else _) = _ => destruct c
     end; try discriminate; inv H; coreb; try (plainb I ET; fail).
-  assert (FR : thr s (2 * next_int s + 1) = None) by (eapply fresh_int_b; eauto).
-  assert (NE : t <> 2 * next_int s + 1) by (intros E; rewrite <- E in FR; congruence).
-  apply Q_thread; [ | rewrite upd_other; [congruence|auto]
+  all: assert (FR : thr s (2 * next_int s + 1) = None) by (eapply fresh_int_b; eauto).
+  all: assert (NE : t <> 2 * next_int s + 1) by (intros E; rewrite <- E in FR; congruence).
+  all: apply Q_thread; [ | rewrite upd_other; [congruence|auto]
                   | intros c0; rewrite upd_other; auto; rewrite ET; cbn; tauto | cbn; tauto].
-  eapply Q_spawn; [exact I|exact FR|lia|lia|right; exists (next_int s); split; auto; lia|cbn; tauto].
+  all: eapply Q_spawn; [exact I|exact FR|lia|lia|right; exists (next_int s); split; auto; lia|cbn; tauto].
 Qed.
 
 Lemma job_step_B s t c b s' :
